@@ -285,6 +285,25 @@ func c19Summary(g *ssa.Function) *c19Sum {
 
 // c19IsPolicyTest: v is env.RedactionPolicy() == urns.
 func c19IsPolicyTest(v ssa.Value) bool {
+	// the test written as a helper of the module: every return of the helper is the test
+	if c, ok := v.(*ssa.Call); ok {
+		g := c.Call.StaticCallee()
+		if g == nil || g.Blocks == nil || !core.InModule(core.FuncPkgPath(g)) || len(core.Returns(g)) == 0 {
+			return false
+		}
+		for _, ret := range core.Returns(g) {
+			if len(ret.Results) != 1 {
+				return false
+			}
+			if inner, isCall := ret.Results[0].(*ssa.Call); isCall && inner.Call.StaticCallee() == g {
+				return false
+			}
+			if !c19IsPolicyTest(ret.Results[0]) {
+				return false
+			}
+		}
+		return true
+	}
 	bo, ok := v.(*ssa.BinOp)
 	if !ok || bo.Op != token.EQL {
 		return false
